@@ -615,7 +615,7 @@ theorem finishStruct_unknown (E : Ext) (env : Env) (perms : List String) (cls : 
   rw [if_pos hany]
   rfl
 
-theorem decode_struct_obj (E : Ext) (env : Env) (perms : List String) (strict : Bool) (fl : Flags) (cls : String)
+theorem decode_struct_obj_eq (E : Ext) (env : Env) (perms : List String) (strict : Bool) (fl : Flags) (cls : String)
     (kvs : List (String × JVal)) :
     decode E env perms strict (.struct fl cls) (.obj kvs) =
       finishStruct E env perms strict cls kvs
